@@ -312,4 +312,9 @@ def run(ctx, chk):
         ss = [(e,) + index_of(e.args[0]) for e in pa.events if e.kind == "store" and index_of(e.args[0])[1] is not None]
         ok = len(ss) == 1 and ss[0][2][0] == "op" and ss[0][2][1] in ("add", "sub")
         chk.ob("C12.value-slot", "_cbor_map_add_value writes pair [count - 1]", ok, "%s:%d" % (v.file, v.line), fn=v.name, key="vslot:%d" % k)
+    chk.rule("C12.no-stale-block", "a refused insertion leaves the container as it was - in particular its storage block alive: a block "
+                                   "read from a field and freed has that field overwritten or its owner freed on the same path "
+                                   "(reallocation wrappers inlined; shared with C06)")
+    from props.c06 import check_dangling
+    check_dangling(chk, "C12.no-stale-block", prog, eff, cache)
     chk.exhaustive = True
